@@ -111,6 +111,7 @@ var argKinds = []argv{
 	{kind: "arr", expr: "[null,'a']", elems: []argv{{kind: "null"}, {kind: "str", str: "a"}}},
 	{kind: "num", num: "9007199254740993", expr: "(9007199254740993)"},
 	{kind: "num", num: "0.0000000000000000000005", expr: "(5e-22)"},
+	{kind: "num", num: "0.000000000000000000000000000000002", expr: "(2e-33)"},
 }
 
 const (
@@ -613,6 +614,26 @@ func judgeErrSites(c ErrCase) *eng.Fail {
 		}
 		if _, assigned := data["$v"]; assigned {
 			return eng.F("C11/error-aborts", "%s: the assignment ran although its value failed", src)
+		}
+	}
+	// a spread operand is an argument like any other: evaluated after the arguments before it
+	if !c.FailF && !c.FailH {
+		data["hv"] = func(head interface{}, rest ...interface{}) (interface{}, error) {
+			log = append(log, "hv")
+			return float64(len(rest)), nil
+		}
+		data["lfun"] = func() ([]interface{}, error) { log = append(log, "lfun"); return []interface{}{1.0, 2.0}, nil }
+		log = nil
+		o, err := evalWith("hv(gfun(1), lfun()...)", data)
+		if err != nil || o.panicked {
+			return eng.F("C11/eval", "hv(gfun(1), lfun()...): %v %s", err, o.panicMsg)
+		}
+		want := "gfun,lfun,hv"
+		if c.FailG {
+			want = "gfun"
+		}
+		if strings.Join(log, ",") != want {
+			return eng.F("C11/argument-order", "hv(gfun(1), lfun()...) with gfun failing=%v: invocations %v, expected %s (arguments are evaluated left to right, the spread operand last)", c.FailG, log, want)
 		}
 	}
 	outcome(fmt.Sprint(c))
